@@ -4,7 +4,7 @@ use prqlc::{ErrorMessages, Options, Target};
 use serde_json::{json, Value};
 
 /// extension modules: each is `fn(op, req) -> Option<Value>` (None = not mine)
-const EXTENSIONS: &[fn(&str, &Value) -> Option<Value>] = &[];
+const EXTENSIONS: &[fn(&str, &Value) -> Option<Value>] = &[crate::ops_err::dispatch];
 
 pub fn s<'a>(req: &'a Value, k: &str) -> &'a str {
     req.get(k).and_then(|v| v.as_str()).unwrap_or("")
